@@ -1169,6 +1169,12 @@ Section CapMain.
   Qed.
 End CapMain.
 
+Lemma nodup_app_l {A} (a b : list A) : NoDup (a ++ b) -> NoDup a.
+Proof.
+  induction a as [|x a IH]; cbn [app]; intros H; [constructor|].
+  inversion H; subst. constructor; auto. intros Hin. apply H2. apply in_or_app. now left.
+Qed.
+
 Section CapMain2.
   Variables (s s1 : db) (diff parent nb : nat).
   Variables (dr di : N) (dn : nset) (dss : sset) (pr pi : N) (pn : nset) (pss : sset) (pp : nat).
@@ -1413,7 +1419,7 @@ Section CapMain2.
             -- exfalso. apply cm_K1. assert (x0 = pr) by (eapply root_of_fun; eauto; exists (Disk pr pi b0 f0 false); split; [apply cm_nb2|reflexivity]).
                now subst.
             -- rewrite (root_of_fun _ _ _ _ (cm_root _ _ Hry) Hroot). exact Hx0. }
-    apply (IH y ry Hpy); auto. intros z0 Hz0. apply Hob. now right.
+    apply (IH y ry Hpy (fun z0 Hz0 => Hob z0 (or_intror Hz0)) Hty Hry_rm z rz); auto.
   Qed.
 
   (* a surviving layer reaches the new base *)
@@ -1445,6 +1451,222 @@ Section CapMain2.
       + cbn [app]. split; auto. destruct (q1 ++ [nb]) as [|y1 r1] eqn:E; [destruct q1; discriminate|].
         assert (y1 = y) by (destruct Hp2 as [Hy _]; exact Hy). subst y1. split; [eauto|exact Hp2].
       + intros z [<-|Hz]; [exact Hzx|auto].
+  Qed.
+
+  (* ---- sequences of removeLayer ---- *)
+  Lemma cl_closed (Q : list N -> Prop) :
+    (forall l e l', remove_from_list l e = Some l' -> Q l -> Q l') ->
+    forall c lk k, Q (lk_get lk k) -> Q (lk_get (cl_apply lk c) k).
+  Proof.
+    intros HQ. induction c as [|c0 c IH]; intros lk k Hq; cbn [cl_apply fold_left]; auto.
+    apply IH. apply lookup_remove_closed; auto. intros l l'. apply HQ.
+  Qed.
+
+  Lemma cl_gone : forall c lk k st keys, In (st, keys) c -> In k keys -> NoDup (lk_get lk k) ->
+    ~ In st (lk_get (cl_apply lk c) k).
+  Proof.
+    induction c as [|c0 c IH]; intros lk k st keys Hin Hk Hn; [destruct Hin|].
+    cbn [cl_apply fold_left]. destruct Hin as [->|Hin].
+    - cbn [fst snd]. apply (cl_closed (fun l => ~ In st l)).
+      + intros l e l' Hr Hq Hi. apply Hq. eapply rfl_in; eauto.
+      + apply lookup_remove_gone; auto.
+    - eapply IH; eauto. apply (lookup_remove_closed (fun l => NoDup l)); auto.
+      intros l l' Hr Hq. apply (rfl_nodup _ _ _ Hr Hq).
+  Qed.
+
+  Lemma cl_keep : forall c lk k e, ~ In e (map fst c) -> In e (lk_get lk k) -> In e (lk_get (cl_apply lk c) k).
+  Proof.
+    induction c as [|c0 c IH]; intros lk k e Hn Hin; cbn [cl_apply fold_left]; auto.
+    apply IH; [intros H; apply Hn; now right|]. apply lookup_remove_keep; auto.
+    intros ->. apply Hn. now left.
+  Qed.
+
+  (* ---- the state after the cap ---- *)
+  Variables (lk3 : lookup) (ok : bool).
+  Hypothesis (Hlk3 : lk3 = cl_apply (t_lookup t2) [(pr, map fst (kv_data pss))]).
+  Hypothesis (HR9 : NoDup (map fst (t_layers t2))).
+  Let sF := with_tr s2 {| t_base := nb; t_layers := t_layers t2; t_desc := t_desc t2; t_lookup := lk3; t_lkok := ok |}.
+
+  Lemma cm_Ft r : tget sF r = if mem r Rm then None else if r =? pr then Some nb else tget s r.
+  Proof. unfold tget, sF, with_tr. cbn [tr t_layers]. rewrite HR1, cm_L1. reflexivity. Qed.
+
+  Lemma cm_Fd a e : is_descendant (t_desc (tr sF)) a e = if mem e Rm then false else is_descendant (t_desc (tr s)) a e.
+  Proof. unfold sF, with_tr. cbn [tr t_desc]. rewrite HR2. unfold t1. cbn [t_desc]. now rewrite cm_tr1. Qed.
+
+  Lemma cm_Flk k : lk_list sF k = lk_get (cl_apply (t_lookup (tr s)) (cl ++ [(pr, map fst (kv_data pss))])) k.
+  Proof.
+    unfold lk_list, sF, with_tr. cbn [tr t_lookup]. rewrite Hlk3, HR3. unfold t1. cbn [t_lookup]. rewrite cm_tr1.
+    unfold cl_apply. rewrite fold_left_app. reflexivity.
+  Qed.
+
+  Lemma cm_len2 : (length (heap s) <= length (heap s2))%nat.
+  Proof.
+    unfold s2. rewrite relink_eq. destruct (relink_spec diff parent nb cm_nb_ne (t_layers t1) s2a) as (_ & _ & H & _).
+    rewrite H. unfold s2a. destruct (set_parent_tr (with_tr s1 t1) diff nb) as (_ & _ & H'). rewrite H'.
+    apply (ev_len _ _ _ _ HEv).
+  Qed.
+
+  Lemma cm_notmem r : ~ In r Rm -> mem r Rm = false.
+  Proof. intros H. destruct (mem r Rm) eqn:E; auto. apply mem_in in E. contradiction. Qed.
+
+  Lemma cm_surv_tget r x : tget s r = Some x -> ~ In r Rm -> r <> pr -> tget sF r = Some x.
+  Proof. intros Ht Hn Hne. rewrite cm_Ft, (cm_notmem _ Hn). apply N.eqb_neq in Hne. now rewrite Hne. Qed.
+
+  Lemma cm_Ft_inv r x : tget sF r = Some x -> ~ In r Rm /\ ((r = pr /\ x = nb) \/ (r <> pr /\ tget s r = Some x)).
+  Proof.
+    rewrite cm_Ft. destruct (mem r Rm) eqn:E; [discriminate|]. intros H. split.
+    - intros Hin. apply mem_in in Hin. congruence.
+    - destruct (r =? pr) eqn:E2; [apply N.eqb_eq in E2; inversion H; auto|apply N.eqb_neq in E2; auto].
+  Qed.
+
+  Lemma cm_parent_path_rest q1 rest x : is_path s x (q1 ++ parent :: rest) -> rest = qp ++ [base].
+  Proof.
+    intros H. apply is_path_suffix in H. pose proof (is_path_det _ _ _ _ H Hpp) as E. now inversion E.
+  Qed.
+
+  (* a surviving diff layer keeps its state set *)
+  Lemma cm_surv_obj r x : tget s r = Some x -> ~ In r Rm -> r <> pr ->
+    exists i n ss y y', hget s x = Some (Diff r i n ss y) /\ hget s2 x = Some (Diff r i n ss y').
+  Proof.
+    intros Ht Hn Hne. destruct (cm_live_h2 _ _ Ht (cm_surv_notin _ _ Ht Hn Hne)) as (i & n & ss & y & H1 & H2). eauto 8.
+  Qed.
+
+  Lemma cm_cl_fst c : In c cl -> In (fst c) Rm.
+  Proof.
+    intros Hc. destruct (HR4 _ Hc) as (r & Hr & Hin). rewrite cm_L1 in Hin. destruct (r =? pr) eqn:E.
+    - cbn [cl_entry] in Hin. rewrite cm_nb2 in Hin. destruct Hin.
+    - destruct (tget s r) as [x|] eqn:Ht; [|destruct Hin]. cbn [cl_entry] in Hin.
+      destruct (hget s2 x) as [[|r' i n ss y]|] eqn:Hx; try destruct Hin as [<-|[]]; try destruct Hin.
+      cbn [fst]. destruct (inv_path s I _ _ Ht) as (Hrx & _). apply cm_root in Hrx.
+      assert (r' = r) by (eapply root_of_fun; eauto; exists (Diff r' i n ss y); auto). now subst.
+  Qed.
+
+  Lemma cm_lookup_fwd k e : In e (lk_list sF k) ->
+    In e (lk_list s k) /\ ~ In e Rm /\ e <> pr.
+  Proof.
+    intros H. rewrite cm_Flk in H.
+    assert (Hold : In e (lk_list s k)).
+    { revert H. apply (cl_closed (fun l => In e l -> In e (lk_list s k))); auto.
+      intros l e0 l' Hr Hq Hi. apply Hq. eapply rfl_in; eauto. }
+    split; auto.
+    destruct (proj1 (inv_lookup s I k e) Hold) as (lid & v & Ht & (r & i & n & ss & p & Hd & Hk)).
+    destruct (inv_path s I _ _ Ht) as ((l0 & Hl0 & Hr0) & _). rewrite Hd in Hl0. inversion Hl0; subst l0. cbn [layer_root] in Hr0. subst r.
+    assert (Hkin : In k (map fst (kv_data ss))) by (eapply (aget_some_in skey_eqb skey_eqb_spec); eauto).
+    split.
+    - intros Hrm. revert H. apply (cl_gone _ _ k e (map fst (kv_data ss))); auto; [|apply (inv_lk_nodup s I)].
+      apply in_or_app. left. apply (HR5 e); auto. rewrite cm_L1.
+      destruct (e =? pr) eqn:E; [apply N.eqb_eq in E; subst; exfalso; now apply cm_K1|].
+      rewrite Ht. cbn [cl_entry].
+      destruct (in_dec Nat.eq_dec lid Pp) as [Hin|Hni].
+      + destruct (cm_path_h2 _ _ _ _ _ _ Hin Hd) as (y' & H2 & _). rewrite H2. now left.
+      + destruct (cm_live_h2 _ _ Ht Hni) as (i2 & n2 & ss2 & y2 & H1 & H2). rewrite Hd in H1. inversion H1; subst.
+        rewrite H2. now left.
+    - intros ->. revert H. apply (cl_gone _ _ k pr (map fst (kv_data ss))); auto; [|apply (inv_lk_nodup s I)].
+      apply in_or_app. right. rewrite cm_parent_live in Ht. inversion Ht; subst lid. rewrite Hparent in Hd. inversion Hd; subst. now left.
+  Qed.
+
+  Theorem cm_inv : Inv sF.
+  Proof.
+    assert (Hh : forall x, hget sF x = hget s2 x) by reflexivity.
+    assert (Hpe : forall a pth, is_path s2 a pth -> is_path sF a pth).
+    { intros a pth H. eapply is_path_ext; [|exact H]. auto. }
+    assert (HnbF : hget sF nb = Some (Disk pr pi b0 f0 false)) by (rewrite Hh; apply cm_nb2).
+    assert (Hpr_t : tget sF pr = Some nb) by (rewrite cm_Ft, (cm_notmem _ cm_K1), N.eqb_refl; reflexivity).
+    (* the path of a surviving diff layer *)
+    assert (Hsp : forall r x, tget s r = Some x -> ~ In r Rm -> r <> pr ->
+              exists q q1, is_path s x (q ++ [base]) /\ q ++ [base] = q1 ++ parent :: qp ++ [base] /\
+                           NoDup (q ++ [base]) /\ (length (q ++ [base]) <= S (length (heap s)))%nat /\
+                           is_path s2 x (q1 ++ [nb]) /\
+                           (forall z, In z q1 -> ~ In z Pp /\ exists rz, root_of s z rz /\ tget s rz = Some z /\ ~ In rz Rm /\ rz <> pr)).
+    { intros r x Ht Hn Hne. destruct (inv_path s I _ _ Ht) as (_ & q & Hq & Hql & Hqn & Hqo).
+      destruct (cm_surv_path _ _ _ Hq Hqo Ht Hn Hne) as (q1 & rest & Hs & Hp2 & Hz).
+      pose proof Hq as Hq0. rewrite Hs in Hq. pose proof (cm_parent_path_rest _ _ _ Hq) as Hrest. subst rest.
+      exists q, q1. split; [exact Hq0|]. split; [exact Hs|]. split; [exact Hqn|]. split; [exact Hql|]. split; [exact Hp2|exact Hz]. }
+    constructor.
+    - exists pr, pi, b0, f0. exact HnbF.
+    - intros r x Ht. destruct (cm_Ft_inv _ _ Ht) as (Hn & [[-> ->]|[Hne Hts]]).
+      + split; [exists (Disk pr pi b0 f0 false); auto|]. exists []. cbn [app]. split; [|split; [|split]].
+        * split; auto. eauto 8.
+        * cbn. lia.
+        * constructor; [intros []|constructor].
+        * intros z [<-|[]]. exists pr. split; [exists (Disk pr pi b0 f0 false); auto|auto].
+      + destruct (Hsp _ _ Hts Hn Hne) as (q & q1 & Hq & Hs & Hqn & Hql & Hp2 & Hz).
+        destruct (inv_path s I _ _ Hts) as (Hrx & _).
+        split; [apply cm_root; exact Hrx|]. exists q1. cbn [t_base tr sF with_tr]. split; [|split; [|split]].
+        * apply Hpe. exact Hp2.
+        * pose proof cm_len2. rewrite Hs in Hql. rewrite !app_length in *. cbn [length] in *.
+          change (heap sF) with (heap s2). lia.
+        * rewrite Hs in Hqn. pose proof (nodup_app_l _ _ Hqn) as Hq1. apply NoDup_app_single; auto.
+          intros Hin. destruct (Hz _ Hin) as (_ & rz & (l0 & Hl0 & _) & _). pose proof (cm_lt _ _ Hl0). lia.
+        * intros z Hin. apply in_app_or in Hin. destruct Hin as [Hin|[<-|[]]].
+          -- destruct (Hz _ Hin) as (_ & rz & Hrz & Htz & Hnz & Hnez). exists rz. split; [apply cm_root; auto|].
+             apply cm_surv_tget; auto.
+          -- exists pr. split; [exists (Disk pr pi b0 f0 false); auto|auto].
+    - intros r x pth e Ht Hpth. rewrite cm_Fd. destruct (cm_Ft_inv _ _ Ht) as (Hn & [[-> ->]|[Hne Hts]]).
+      + assert (pth = [nb]).
+        { eapply is_path_det; [exact Hpth|]. split; auto. eauto 8. }
+        subst pth. cbn [tl]. split; [|intros (z & [] & _)].
+        destruct (mem e Rm) eqn:E; [discriminate|]. intros Hd. exfalso.
+        apply (inv_desc s I _ _ _ e cm_parent_live Hpp) in Hd. destruct Hd as (z & Hz & Hrz). cbn [tl] in Hz.
+        assert (In e Rm) by (apply (cm_K2 (qp ++ [base]) [parent] eq_refl ltac:(discriminate) z e); auto).
+        apply mem_in in H. congruence.
+      + destruct (Hsp _ _ Hts Hn Hne) as (q & q1 & Hq & Hs & Hqn & Hql & Hp2 & Hz).
+        assert (pth = q1 ++ [nb]) by (eapply is_path_det; [exact Hpth|apply Hpe; exact Hp2]). subst pth.
+        destruct q1 as [|x0 q1t].
+        { cbn [app] in Hp2. destruct Hp2 as [Hx _]. exfalso. destruct (inv_path s I _ _ Hts) as ((l0 & Hl0 & _) & _).
+          pose proof (cm_lt _ _ Hl0). lia. }
+        cbn [app tl]. pose proof (inv_desc s I _ _ _ e Hts Hq) as Hold. rewrite Hs in Hold. cbn [app tl] in Hold.
+        split.
+        * destruct (mem e Rm) eqn:E; [discriminate|]. intros Hd. apply Hold in Hd. destruct Hd as (z & Hzin & Hrz).
+          apply in_app_or in Hzin. destruct Hzin as [Hzin|[<-|Hzin]].
+          -- exists z. split; [apply in_or_app; now left|apply cm_root; auto].
+          -- exists nb. split; [apply in_or_app; right; now left|].
+             assert (e = pr) by (eapply root_of_fun; eauto; exists (Diff pr pi pn pss pp); auto). subst e.
+             exists (Disk pr pi b0 f0 false). auto.
+          -- exfalso. assert (In e Rm) by (apply (cm_K2 (qp ++ [base]) [parent] eq_refl ltac:(discriminate) z e); auto).
+             apply mem_in in H. congruence.
+        * intros (z & Hzin & Hrz). apply in_app_or in Hzin. destruct Hzin as [Hzin|[<-|[]]].
+          -- destruct (Hz z (or_intror Hzin)) as (_ & rz & Hrz0 & Htz & Hnz & Hnez).
+             assert (e = rz) by (eapply root_of_fun; [exact Hrz|apply cm_root; exact Hrz0]). subst e.
+             rewrite (cm_notmem _ Hnz). apply Hold. exists z. split; [apply in_or_app; now left|auto].
+          -- assert (e = pr) by (eapply root_of_fun; eauto; exists (Disk pr pi b0 f0 false); auto). subst e.
+             rewrite (cm_notmem _ cm_K1). apply Hold. exists parent. split; [apply in_or_app; right; now left|].
+             exists (Diff pr pi pn pss pp). auto.
+    - intros k e. split.
+      + intros H. destruct (cm_lookup_fwd _ _ H) as (Hold & Hn & Hne).
+        destruct (proj1 (inv_lookup s I k e) Hold) as (lid & v & Ht & (r & i & n & ss & p & Hd & Hk)).
+        exists lid, v. split; [apply cm_surv_tget; auto|].
+        destruct (cm_surv_obj _ _ Ht Hn Hne) as (i2 & n2 & ss2 & y & y' & H1 & H2). rewrite Hd in H1. inversion H1; subst.
+        exists e, i2, n2, ss2, y'. split; auto.
+      + intros (lid & v & Ht & (r & i & n & ss & p & Hd & Hk)).
+        destruct (cm_Ft_inv _ _ Ht) as (Hn & [[-> ->]|[Hne Hts]]); [rewrite HnbF in Hd; discriminate|].
+        destruct (cm_surv_obj _ _ Hts Hn Hne) as (i2 & n2 & ss2 & y & y' & H1 & H2). rewrite Hh, H2 in Hd. inversion Hd; subst.
+        rewrite cm_Flk. apply cl_keep.
+        * rewrite map_app, in_app_iff. intros [Hin|[<-|[]]]; [|congruence].
+          apply in_map_iff in Hin. destruct Hin as (c & <- & Hc). apply Hn. now apply cm_cl_fst.
+        * apply (inv_lookup s I). exists lid, v. split; auto. exists r, i, n, ss, y. auto.
+    - intros k.
+      assert (Hord : ordered (t_desc (tr s)) (lk_list sF k)).
+      { rewrite cm_Flk. apply (cl_closed (ordered (t_desc (tr s)))); [|apply (inv_order s I)].
+        intros l e l' Hr Hq. eapply rfl_ordered; eauto. }
+      eapply ordered_ext; [|exact Hord]. intros x y Hx Hy. rewrite cm_Fd.
+      destruct (cm_lookup_fwd _ _ Hy) as (_ & Hn & _). now rewrite (cm_notmem _ Hn).
+    - intros r e H. rewrite cm_Fd in H. destruct (mem e Rm) eqn:E; [discriminate|].
+      destruct (inv_desc_live s I _ _ H) as (Hr & He). apply live_iff in Hr, He. destruct Hr as (x & Hx), He as (y & Hy).
+      assert (Hen : ~ In e Rm) by (intros Hin; apply mem_in in Hin; congruence).
+      assert (Hrn : ~ In r Rm).
+      { intros Hin. destruct (inv_path s I _ _ Hx) as (_ & q & Hq & _ & _ & Hqo).
+        apply (inv_desc s I _ _ _ e Hx Hq) in H. destruct H as (z & Hz & Hrz). apply Hen.
+        apply (cm_up _ _ _ Hq Hqo Hx Hin z e); auto. destruct q; cbn [app tl] in *; [destruct Hz|now right]. }
+      rewrite !live_iff. split.
+      * destruct (N.eq_dec r pr) as [->|Hne]; [eauto|]. exists x. apply cm_surv_tget; auto.
+      * destruct (N.eq_dec e pr) as [->|Hne]; [eauto|]. exists y. apply cm_surv_tget; auto.
+    - intros k. rewrite cm_Flk. apply (cl_closed (fun l => NoDup l)); [|apply (inv_lk_nodup s I)].
+      intros l e l' Hr Hq. apply (rfl_nodup _ _ _ Hr Hq).
+    - intros r x r' i n ss p Ht Hd. destruct (cm_Ft_inv _ _ Ht) as (Hn & [[-> ->]|[Hne Hts]]); [rewrite HnbF in Hd; discriminate|].
+      destruct (cm_surv_obj _ _ Hts Hn Hne) as (i2 & n2 & ss2 & y & y' & H1 & H2). rewrite Hh, H2 in Hd. inversion Hd; subst.
+      eapply (inv_keys_nodup s I); eauto.
+    - exact HR9.
   Qed.
 End CapMain2.
 
